@@ -26,6 +26,8 @@ def gen(args):
         Yi = P.centred_lattice(rng, n, p, 4)
         if shape != "illcond" and rng.random() < 0.15:
             Yi[:, 0] = Xi[:, int(rng.integers(m))]          # a target that is exactly one of the features
+        if shape != "illcond" and p == 2 and rng.random() < 0.2:
+            Yi[:, 1] = Yi[:, 0]                              # the same property given twice
         xpert = None
         if shape == "illcond":
             # condition number about 1e7: the last column repeats the first one up to 2^-22 z, and the targets contain z, so
